@@ -426,6 +426,30 @@ def check_csv(content, names, expect):
     return None
 
 
+def int_equivalent(a, b):
+    """Outcome for integer-typed points vs the outcome for the same points as floats: None if equivalent, else why not."""
+    np = world.np
+    if a[0] != b[0]:
+        return "integer-typed points: %s; the same points as floats: %s" % (a[1] if a[0] == "exc" else a[0], b[1] if b[0] == "exc" else b[0])
+    if a[0] != "ok":
+        return None if a[:2] == b[:2] else "different exceptions: %s / %s" % (a[1], b[1])
+    if a[1] != b[1] or a[5] != b[5]:
+        return "field names or record count differ"
+    for n, fa, fb in zip(a[1], a[2], b[2]):
+        ka, kb = np.dtype(fa[0]).kind, np.dtype(fb[0]).kind
+        if ka in "fiub" and kb in "fiub":
+            xa = np.frombuffer(fa[2], dtype=fa[0]).astype(float)
+            xb = np.frombuffer(fb[2], dtype=fb[0]).astype(float)
+            if xa.shape != xb.shape:
+                return "field %s: shapes differ" % n
+            for va, vb in zip(xa.tolist(), xb.tolist()):
+                if not _close(va, vb):
+                    return "field %s: %r with integer-typed points, %r with the same points as floats" % (n, va, vb)
+        elif fa[2] != fb[2]:
+            return "field %s differs" % n
+    return None
+
+
 def judge_c05(spec, hist, refs):
     np = world.np
     viol = []
@@ -480,7 +504,15 @@ def judge_c05(spec, hist, refs):
             if okpos:
                 for j in range(d):
                     f = out[2][j]
-                    if not (f[0] == "float64" and f[2] == np.ascontiguousarray(cols[j], dtype=float).tobytes()):
+                    want = np.ascontiguousarray(cols[j], dtype=float)
+                    if f[0] == "float64":
+                        same = f[2] == want.tobytes()
+                    elif np.dtype(f[0]).kind in "iu" and op.get("cont") in ("ilist", "iarr"):
+                        # integer-typed points may come back integer-typed: unchanged means equal in value
+                        same = np.array_equal(np.frombuffer(f[2], dtype=f[0]).astype(float), want)
+                    else:
+                        same = False
+                    if not same:
                         okpos = False
                         break
             if not okpos:
@@ -500,7 +532,14 @@ def judge_c05(spec, hist, refs):
             ref_nd = reference(m)[0][-1]
             ref_own = refs[i][0][-1]
             stats["i4_pairs"] += 1
-            if not same_outcome(ref_own, ref_nd):
+            if op["cont"] in ("ilist", "iarr"):
+                # integer-typed points: equivalent means equal in value (the arithmetic may take an integer path and
+                # round differently in the last place; the position field may keep the integer type)
+                stats["i4_integer_typed"] = stats.get("i4_integer_typed", 0) + 1
+                why = int_equivalent(ref_own, ref_nd)
+                if why is not None:
+                    add("I4", i, op, {"kind": "container", "container": op["cont"], "integer_typed": True, "why": why})
+            elif not same_outcome(ref_own, ref_nd):
                 add("I4", i, op, {"kind": "container", "container": op["cont"], "diff": describe_diff(ref_own, ref_nd)})
         if op["op"] == "dump" and out[0] == "dump":
             _, res, content, names, expect, leaked, fired, writes = out
